@@ -15,9 +15,15 @@
      rs <fid> <u | v<sats>>      UtxoFuture::resolve
      pc <now>                    check_resolved_futures; answer = the queued broadcasts of accepted signed replays
      tm                          too_many_checks_pending
+     unordered                   from here to the next `reset` the dumps print each node's channel list sorted (phases with
+                                 asynchronous lookups); otherwise in ARRIVAL order (Model/GossipOrder.lean)
+     restart                     NetworkGraph::read(NetworkGraph::write(g)) (Model/GossipPersist.lean): the graph without
+                                 tombstones and without pending lookups, or `err InvalidValue`
    The model run is `Gossip.Impl` (every decision = generated code), see Model/Gossip.lean. -/
 import LdkModel.Driver.Util
 import LdkModel.Model.GossipAsync
+import LdkModel.Model.GossipPersist
+import LdkModel.Model.GossipOrder
 namespace Ldk.Driver
 open Ldk Ldk.Gossip
 open Ldk.Gossip.Impl (RgsNode RgsAnn RgsUpd)
@@ -38,15 +44,18 @@ def c17Chan (p : Nat × ChanInfo) : String :=
   let c := p.2
   s!"{p.1}:{c.node1}:{c.node2}:{c17Opt c.capacity}:{c.recvTime}:{c17B c.hasMsg}:{c17Dir c.d12}:{c17Dir c.d21}"
 
-def c17Node (p : Nat × NodeInfo) : String :=
+def c17Node (o : Option Order.OMap) (p : Nat × NodeInfo) : String :=
   let ann := match p.2.ann with
     | none => "-"
     | some a => s!"{a.lastUpdate}/{a.payload}/{c17B a.relayed}"
-  s!"{p.1}:[{",".intercalate (p.2.channels.keys.map toString)}]:{ann}"
+  let chans := match o with
+    | some om => (om.get p.1).getD []
+    | none => p.2.channels.keys
+  s!"{p.1}:[{",".intercalate (chans.map toString)}]:{ann}"
 
-def c17Dump (g : Graph) (tomb : Bool) : String :=
+def c17Dump (g : Graph) (o : Option Order.OMap) (tomb : Bool) : String :=
   let cs := " ".intercalate (g.channels.l.map c17Chan)
-  let ns := " ".intercalate (g.nodes.l.map c17Node)
+  let ns := " ".intercalate (g.nodes.l.map (c17Node o))
   let base := s!"C {cs} | N {ns}"
   if tomb then
     let rc := " ".intercalate (g.removedChannels.l.map (fun p => s!"{p.1}@{p.2}"))
@@ -117,29 +126,48 @@ def c17ParseAsync : List String → Option (ChanAnn × Nat)
     else none
   | _ => none
 
+structure C17St where
+  a : Async.State
+  /-- arrival order of each node's channels (maintained while `ordered`) -/
+  o : Order.OMap
+  ordered : Bool
+
+def C17St.init : C17St := ⟨Async.State.empty, SMap.empty, true⟩
+def C17St.ord (st : C17St) : Option Order.OMap := if st.ordered then some st.o else none
+/-- install the new async state, updating the arrival orders (`moved` = a replaced SCID) -/
+def C17St.next (st : C17St) (a' : Async.State) (moved : Option Nat) : C17St :=
+  { st with a := a', o := Order.after st.o moved a'.g }
+
 def c17 : Drv where
-  σ := Async.State
-  init := Async.State.empty
+  σ := C17St
+  init := C17St.init
   step := fun st ws =>
     match ws with
-    | ["reset"] => (Async.State.empty, "-")
-    | ["dump"] => (st, c17Dump st.g true)
-    | ["dumpp"] => (st, c17Dump st.g false)
-    | ["tm"] => (st, c17B (Async.tooMany st))
-    | ["rs", fid, ux] => ((Async.step st (.resolve (nat! fid) (c17Utxo ux))).1, "done")
+    | ["reset"] => (C17St.init, "-")
+    | ["unordered"] => ({ st with ordered := false }, "-")
+    | ["dump"] => (st, c17Dump st.a.g st.ord true)
+    | ["dumpp"] => (st, c17Dump st.a.g st.ord false)
+    | ["tm"] => (st, c17B (Async.tooMany st.a))
+    | ["restart"] =>
+      match Persist.restart st.a.g with
+      | some g' => ({ st with a := ⟨g', [], []⟩ }, "ok")
+      | none => (st, "err InvalidValue")
+    | ["rs", fid, ux] => (st.next (Async.step st.a (.resolve (nat! fid) (c17Utxo ux))).1 none, "done")
     | ["pc", now] =>
-      let r := Async.process st (nat! now)
-      ((Async.step st (.process (nat! now))).1, " ".intercalate ("done" :: r.2.map c17Event))
+      let r := Async.process st.a (nat! now)
+      (st.next (Async.step st.a (.process (nat! now))).1 none, " ".intercalate ("done" :: r.2.map c17Event))
     | "rgs" :: rest =>
       match c17Snapshot rest with
-      | some s => let r := Impl.applySnapshot st.g s; ({ st with g := r.1 }, c17ShowOutcome r.2)
+      | some s => let r := Impl.applySnapshot st.a.g s; (st.next { st.a with g := r.1 } none, c17ShowOutcome r.2)
       | none => (st, "bad-op")
     | _ =>
       match c17ParseAsync ws with
-      | some (a, fid) => let r := Async.step st (.annAsync a fid); (r.1, c17ShowOutcome r.2)
+      | some (a, fid) => let r := Async.step st.a (.annAsync a fid); (st.next r.1 none, c17ShowOutcome r.2)
       | none =>
         match c17Parse ws with
-        | some op => let r := Async.step st (.base op); (r.1, c17ShowOutcome r.2)
+        | some op =>
+          let r := Async.step st.a (.base op)
+          (st.next r.1 (Order.movedScid st.a.g op r.2), c17ShowOutcome r.2)
         | none => (st, "bad-op")
 
 end Ldk.Driver
